@@ -43,7 +43,7 @@ P = {
   "Differential oracle. Error entries compared without referrer. Specifiers that some import loads as an asset are not reloaded (a reload is an attribute-less load).",
   "DESIGN.md §4 C19", TECH + "; exhaustive operation histories up to a depth x deviation-bounded worlds, differential oracle against from-scratch builds"),
  "C03": (True,
-  "For four fixtures (plain, registry, registry with embedded module graphs + cache misses, npm+node) every assignment of an answer kind to the loader calls the build issues is explored up to the completed number of deviations (one fault anywhere: all; pairs/triples: per tier) with 15 answer kinds for load (+6 for registry metadata), 5 for ensure_cached and 4 npm resolver answers (ok, failing one or the other of two requirements imported out of sorted order, dependency-graph error; a failed requirement must be the error entry of its own specifiers); absolute expectations on the fault-free builds: a package file importing JSON statically without attribute is an error entry, and every jsr: specifier with a redirect has its requirement in the package table; every fixture re-requests settled specifiers (dynamic branch, optional second build on the same graph), the registry fixtures take prefer_cached_jsr_versions as a choice and contain unsatisfiable / yanked-only requirements; one part combines faults with EVERY completion order of the gated loader futures. Every run is checked for: no panic, the build future completes, no unfinished entry / [INTERNAL ERROR], terminal faults become error entries with a referrer, non-interference against the fault-free build.",
+  "For four fixtures (plain, registry, registry with embedded module graphs + cache misses, npm+node) every assignment of an answer kind to the loader calls the build issues is explored up to the completed number of deviations (one fault anywhere: all; pairs/triples: per tier) with 16 answer kinds for load (+6 for registry metadata), 5 for ensure_cached and 4 npm resolver answers (ok, failing one or the other of two requirements imported out of sorted order, dependency-graph error; a failed requirement must be the error entry of its own specifiers); absolute expectations on the fault-free builds: a package file importing JSON statically without attribute is an error entry, and every jsr: specifier with a redirect has its requirement in the package table; every fixture re-requests settled specifiers (dynamic branch, optional second build on the same graph), the registry fixtures take prefer_cached_jsr_versions as a choice and contain unsatisfiable / yanked-only requirements; one part combines faults with EVERY completion order of the gated loader futures. Every run is checked for: no panic, the build future completes, no unfinished entry / [INTERNAL ERROR], terminal faults become error entries with a referrer, non-interference against the fault-free build.",
   "Faults beyond the completed deviation bound and worlds beyond the four fixtures are not covered. Registry files ignore response headers by design; files with embedded module information are not parsed.",
   "DESIGN.md §4 C03", TECH + "; deviation-bounded fault assignment over every loader call (fault enumeration), differential non-interference oracle"),
  "C04": (True,
